@@ -705,6 +705,19 @@ func (c *specCtx) call(n *SCall) (Val, types.Type) {
 		case *types.Slice:
 			return scalar(v.slLen()), untypedInt
 		case *types.Map:
+			if !v.T[0].Bound && len(c.heap) == len(c.st.Heap) {
+				// tie the length to the domain (non-negative, witness for positive length) in the current state
+				sameHeap := true
+				for k, t := range c.heap {
+					if c.st.Heap[k] != t {
+						sameHeap = false
+						break
+					}
+				}
+				if sameHeap {
+					return scalar(c.e.mapLen(c.st, u, v.T[0])), untypedInt
+				}
+			}
 			return scalar(tb.Select(c.H("MLen:"+typeKey(u), SArrI), v.T[0])), untypedInt
 		case *types.Array:
 			return scalar(tb.Int(u.Len())), untypedInt
@@ -926,8 +939,18 @@ func (c *specCtx) evalLocs(x SExpr) []Loc {
 			if isBigInt(u.Elem()) {
 				return []Loc{{Class: "BigVal", Sort: SArrI, Ref: v.T[0]}}
 			}
-			for _, l := range Leaves(u.Elem()) {
-				out = append(out, Loc{Class: c.e.objClass(u.Elem(), "", l), Sort: ArrOf(l.Sort), Ref: v.T[0]})
+			px := c.e.ptrOf(c.e.plainPtr(c.st, v), u.Elem())
+			switch px.Kind {
+			case PField:
+				for _, l := range Leaves(u.Elem()) {
+					out = append(out, Loc{Class: c.e.objClass(px.Root, px.Path, l), Sort: ArrOf(l.Sort), Ref: px.Ref})
+				}
+			case PElem:
+				for _, l := range Leaves(u.Elem()) {
+					out = append(out, Loc{Class: c.e.elemClass(px.Root, px.Path, l), Sort: ArrOf(ArrOf(l.Sort)), Ref: px.Ref, Idx: px.Idx})
+				}
+			default:
+				c.fail("modifies pattern through a pointer to a local or global")
 			}
 			return out
 		case *types.Slice:
